@@ -73,6 +73,8 @@ func Alphabet(names ...string) []Letter {
 	reg(Letter{Name: "ADD nhg2@D {1}", NI: D, Op: add, Entry: ribx.NHGEntry(2, 0, m(1, 1))})
 	reg(Letter{Name: "ADD nhg2@D {2}", NI: D, Op: add, Entry: ribx.NHGEntry(2, 0, m(2, 1))})
 	reg(Letter{Name: "ADD nhg2@D {3}", NI: D, Op: add, Entry: ribx.NHGEntry(2, 0, m(3, 1))})
+	// backup groups are neither checked for resolvability nor do they protect the group they name
+	reg(Letter{Name: "ADD nhg2@D {2} backup 1", NI: D, Op: add, Entry: ribx.NHGEntry(2, 1, m(2, 1))})
 	reg(Letter{Name: "DELETE nhg2@D", NI: D, Op: del, Entry: ribx.NHGEntry(2, 0)})
 	reg(Letter{Name: "ADD nhg1@V {1}", NI: V, Op: add, Entry: ribx.NHGEntry(1, 0, m(1, 1))})
 	reg(Letter{Name: "DELETE nhg1@V", NI: V, Op: del, Entry: ribx.NHGEntry(1, 0)})
